@@ -58,7 +58,7 @@ static inline i128 c_ashr(i128 x, i128 k){ return k >= 127 ? (x < 0 ? -1 : 0) : 
 /* ---- the parts of bound<z_number> / interval<z_number> needed for from_interval / to_interval
  * (same reading as units/interval/spec.h: a bound is (-oo | n | +oo), flag f0 with +-1 in f1) */
 #ifdef __cplusplus
-static inline i128 sb_val(SB b){ return (i128)(((u128)b.f1.f0.a[0].f1 << 64) | (u128)b.f1.f0.a[0].f0); }
+static inline i128 sb_val(SB b){ return (i128)(((u128)b.f1.f0.a.f1 << 64) | (u128)b.f1.f0.a.f0); }
 #else
 static inline i128 sb_val(SB b){ return ZV(&b.f1); }
 #endif
